@@ -2,6 +2,7 @@ package props
 
 import (
 	"bytes"
+	"context"
 	"fmt"
 	"math"
 	"reflect"
@@ -125,6 +126,9 @@ type Scenario struct {
 	// is a by-value copy of another options object that was already in use (a population was built with it), with every
 	// exported setting overwritten afterwards - the ordinary Go way of deriving a configuration.
 	Warm *WarmSpec `json:"warm,omitempty"`
+	// CancelTail: after the history one more turnover is attempted under an already cancelled context (every species'
+	// reproduction gives up with the context's error); nothing is asserted about its result, it exercises the failure path
+	CancelTail bool `json:"cancelled_turnover_at_the_end,omitempty"`
 }
 
 type WarmSpec struct {
@@ -152,6 +156,7 @@ type ScenarioCfg struct {
 	NoSwitch     bool // never change the options object during the history
 	ModularStart bool // one history in six is spawned from a modular start genome
 	DupIds       bool // one history in five starts with non-unique genome ids
+	CancelTail   bool // every second history ends with a turnover under a cancelled context
 	Warm         bool // one history in four runs with an executor and/or options object that was used before (see WarmSpec)
 }
 
@@ -202,6 +207,9 @@ func genScenario(cfg ScenarioCfg) *rapid.Generator[Scenario] {
 			}
 			w.CopiedOpts = k != 0
 			sc.Warm = w
+		}
+		if cfg.CancelTail {
+			sc.CancelTail = rapid.Bool().Draw(t, "cancelled tail")
 		}
 		if sc.Ctor == "reread" {
 			sc.PreEpochs = rapid.IntRange(1, 8).Draw(t, "pre epochs")
@@ -422,6 +430,19 @@ func runScenario(sc Scenario, h epochHooks, rec *Rec) error {
 			if err := h.after(e, pop); err != nil {
 				return fmt.Errorf("after epoch %d: %v", e, err)
 			}
+		}
+	}
+	if sc.CancelTail {
+		cctx, cancel := context.WithCancel(ctx)
+		cancel()
+		n := len(pop.Organisms)
+		for i, o := range pop.Organisms {
+			o.Fitness = fitnessOf(sc.Fit, sc.Epochs, i, n, o.Genotype)
+		}
+		if err := exec.NextEpoch(cctx, sc.Epochs, pop); err != nil {
+			rec.Class("turnover under a cancelled context returned an error")
+		} else {
+			rec.Class("turnover under a cancelled context succeeded")
 		}
 	}
 	return nil
